@@ -7,14 +7,19 @@ func init() {
 			"(a) the visibility predicate of the snapshot iterator and of the delta logger equal the reference table born<=sn && (dead==0||dead>sn) on all orderings of the three epochs; " +
 			"(b) garbage of snapshot n is handed to the collectors only under the in-order guard sn == lastGCSn+1, by the single collector; " +
 			"(c) published items are immutable: every write to an item header or payload targets an item that is fresh in that function, the only exception being the 0->currSn CAS on deadSn; " +
-			"(d) NewSnapshot captures the epoch before incrementing it and after merging the writers; (e) the scan APIs (iterator moves, refresh, visitor shard boundaries) end every cursor move on a visible item and partition by one key-only order. " +
+			"(d) NewSnapshot captures the epoch before incrementing it and after merging the writers; (f) the per-writer item delta that Count() is built from changes only with the outcome of the operation (successful insert +1, successful delete -1) and is merged once per snapshot; (e) the scan APIs (iterator moves, refresh, visitor shard boundaries) end every cursor move on a visible item and partition by one key-only order. " +
 			"NOT decided: that the skiplist keeps (key,bornSn) order under concurrency, schedules, the behaviour as a whole.",
 		Assumptions: []string{"go/ssa faithfully represents the source", "user key comparators and io.Writers do not modify the byte slices they are given"},
 		Run: func(c *Ctx) {
 			c.Do("C01.a", "L5 visibility decision table", 4, func() { clVisibilityTable(c); clDeltaPredicateTable(c) })
 			c.Do("C01.b", "L1+L3 in-order collection guard", 5, func() { clCollectorGuard(c) })
-			c.Do("C01.c", "L11+L3 published items are immutable", 8, func() { clItemImmutable(c) })
+			c.Do("C01.c", "L11+L3 published items are immutable", 8, func() { clItemImmutable(c); clAllocItemInitialises(c) })
 			c.Do("C01.d", "L2 epoch capture", 7, func() { clEpochCapture(c) })
+			c.Do("C01.f", "L1+L2 Count() bookkeeping follows the outcome of each operation", 15, func() {
+				clPut2Pairing(c)
+				clDeleteNodeWinner(c)
+				clStitch(c)
+			})
 			c.Do("C01.e", "L2+L4 scan APIs deliver each visible item once", 8, func() {
 				clCursorMovesFiltered(c)
 				clRefreshOnlyOnVisible(c)
